@@ -875,41 +875,50 @@ func c09iterator(c *Ctx, r *Result) {
 	})
 	r.Check(okBound, "C09.6", c.Name(next)+"#stops-after-last-chunk", c.Pos(next.Pos()), "Next compares current with len(chunkCoords)")
 	// Chunk: start = coords*chunkDims, count = chunkDims clamped by datasetDims - start; passed to ReadSlice
-	env := &polyEnv{c: c, fn: chunk}
+	// (the arithmetic may live in a helper of the iterator that Chunk calls)
+	bodies := []*ssa.Function{chunk}
+	for _, site := range callsIn(chunk) {
+		if g := site.Common().StaticCallee(); g != nil && g.Blocks != nil && shortPkg(fnPkgPath(g)) == "hdf5" && strings.Contains(c.Name(g), "ChunkIterator.") {
+			bodies = append(bodies, g)
+		}
+	}
 	var startOK, countOK, clampOK bool
-	instrs(chunk, func(in ssa.Instruction) {
-		st, ok := in.(*ssa.Store)
-		if !ok {
-			return
-		}
-		ia, ok := st.Addr.(*ssa.IndexAddr)
-		if !ok {
-			return
-		}
-		p := env.of(st.Val, 0)
-		if p.equal(P("chunkcoords*chunkdims", 1)) || p.equal(P("chunkdims*coords", 1)) || p.equal(P("?t*chunkdims", 1)) {
-			startOK = true
-		}
-		_ = ia
-		if p.equal(P("chunkdims", 1)) {
-			countOK = true
-		}
-		if _, has := p["dims"]; has && len(p) == 2 {
-			clampOK = true
-		}
-	})
-	// names: coords is a local loaded from chunkCoords[current-1]; accept any product with chunkdims for start
-	if !startOK {
-		instrs(chunk, func(in ssa.Instruction) {
-			if st, ok := in.(*ssa.Store); ok {
-				p := env.of(st.Val, 0)
-				for m, cf := range p {
-					if cf == 1 && len(p) == 1 && strings.Contains(m, "chunkdims") && strings.Contains(m, "*") {
-						startOK = true
-					}
-				}
+	for _, body := range bodies {
+		env := &polyEnv{c: c, fn: body}
+		instrs(body, func(in ssa.Instruction) {
+			st, ok := in.(*ssa.Store)
+			if !ok {
+				return
+			}
+			ia, ok := st.Addr.(*ssa.IndexAddr)
+			if !ok {
+				return
+			}
+			p := env.of(st.Val, 0)
+			if p.equal(P("chunkcoords*chunkdims", 1)) || p.equal(P("chunkdims*coords", 1)) || p.equal(P("?t*chunkdims", 1)) {
+				startOK = true
+			}
+			_ = ia
+			if p.equal(P("chunkdims", 1)) {
+				countOK = true
+			}
+			if _, has := p["dims"]; has && len(p) == 2 {
+				clampOK = true
 			}
 		})
+		// names: coords is a local loaded from chunkCoords[current-1]; accept any product with chunkdims for start
+		if !startOK {
+			instrs(body, func(in ssa.Instruction) {
+				if st, ok := in.(*ssa.Store); ok {
+					p := env.of(st.Val, 0)
+					for m, cf := range p {
+						if cf == 1 && len(p) == 1 && strings.Contains(m, "chunkdims") && strings.Contains(m, "*") {
+							startOK = true
+						}
+					}
+				}
+			})
+		}
 	}
 	r.Check(startOK && countOK && clampOK, "C09.6", c.Name(chunk)+"#slice-of-chunk-clamped", c.Pos(chunk.Pos()), "start = coord*chunkDims, count = chunkDims, clamped to datasetDims - start at the boundary")
 	okCall := false
